@@ -42,6 +42,8 @@ PIECES = [
     ("hello", "hello"), ("a &amp; b", "a & b"), ("&lt;tag&gt;", "<tag>"), ("&amp;lt;", "&lt;"), ("&#60;i&#62;", "<i>"),
     ("caf&eacute;", "café"), ("&#x266A; la", "♪ la"), ("it&apos;s &quot;q&quot;", "it's \"q\""), ("&#38;amp;", "&amp;"),
     ("x &gt; y", "x > y"), ("100%", "100%"), ("é ü 漢", "é ü 漢"),
+    # decimal and hexadecimal references with the same digits are different characters
+    ("1&#38;2 &#x38; &#41;&#x41; &#60;&#x60;", "1&2 8 )A <`"),
 ]
 
 
@@ -177,6 +179,9 @@ def documents(thorough):
                                                       (3600000, 3600040, ["hour"]), (86399999, None, ["last"])]}}
     yield "two paragraphs of one language in one SYNC, in the middle and at the end", {"langs": one, "cues": {"en-US": [
         (1000, None, ["one"]), (3000, None, ["three"]), (3000, None, ["three-b"]), (6000, None, ["six"]), (6000, None, ["six-b"])]}}
+    yield "two paragraphs of one language in one SYNC, cleared by a blank SYNC", {"langs": one, "variant": variants[1], "cues": {"en-US": [
+        (1000, 2500, ["top line"]), (1000, 2500, ["bottom line"]), (4000, None, ["after"]), (6000, 7000, ["x"]), (6000, 7000, ["y"]),
+        (6000, 7000, ["z"])]}}
     yield "a last cue with its end", {"langs": one, "variant": variants[1], "cues": {"en-US": [(1000, None, ["a"]), (7000, 9000, ["b"])]}}
     # markup: i / b / u, nesting of different kinds, spans, an unknown element, elements across a break
     marks = [
@@ -248,6 +253,18 @@ class World:
         return self.F.call_function(self.fn, [doc], {}, self_value=me or self.reader())
 
 
+def _resolved(st, doc_styles, keys, depth=0):
+    """the italics / bold / underline a style dict gets through its class reference, following references of the referenced
+    styles (chained referential styling carried through SAMI as `class: other;`)"""
+    out = {}
+    ref = st.get("class")
+    if isinstance(ref, str) and depth < 5:
+        target = doc_styles.get(ref) or {}
+        out.update(_resolved(target, doc_styles, keys, depth + 1))
+        out.update({k: v for k, v in target.items() if k in keys})
+    return out
+
+
 def read_back(r):
     """{lang: [{start, end, chars [(ch, i, b, u)], balanced, nodes}]}"""
     from .foldutil import captions_by_language, styles_of
@@ -265,7 +282,7 @@ def read_back(r):
                     chars += [(ch, on["italics"] > 0, on["bold"] > 0, on["underline"] > 0) for ch in nd.attrs.get("content")]
                 elif t == 2:
                     st = dict(nd.attrs.get("content") or {})
-                    st.update({k: v for k, v in (doc_styles.get(st.get("class")) or {}).items() if k in on})
+                    st.update(_resolved(st, doc_styles, on))
                     for k in on:
                         if st.get(k):
                             on[k] += 1 if nd.attrs.get("start") else -1
